@@ -4,7 +4,7 @@ seed=$1; tier=$2; shift 2
 pids="$@"; [ -z "$pids" ] && pids=$(ls checks/*.meta.json | sed 's/.*\(C[0-9]*\).meta.json/\1/')
 for p in $pids; do
   s=$(date +%s)
-  out=$(VERIF_SEED=$seed VERIF_SCRATCH=/tmp/runall-scratch-$seed ./check $p --tier $tier 2>&1); rc=$?
+  out=$(VERIF_SEED=$seed VERIF_SCRATCH=/tmp/runall-scratch-$seed-$tier timeout 4500 ./check $p --tier $tier 2>&1); rc=$?
   e=$(date +%s)
   echo "$p seed=$seed rc=$rc wall=$((e-s)) $(echo "$out" | grep -c '^VIOLATION') viol $(echo "$out" | grep -c '^KNOWN-FINDING') known | $(echo "$out" | tail -1 | cut -c1-150)"
   [ $rc -ne 0 ] && echo "$out" | grep -A1 "^VIOLATION\|MACHINERY" | head -6
